@@ -185,4 +185,172 @@ Proof.
   - apply PI_genes_all.
   - destruct H as [H1 H2 H3]. constructor; auto.
 Qed.
+
+Lemma PI_choose st pool g : PI st pool -> PI (choose st g) (pool_remove g pool).
+Proof.
+  intros [H1 H2 H3]. constructor.
+  - unfold pool_remove. apply NoDup_filter. exact H1.
+  - intros h Hh. apply pool_remove_in in Hh. apply H2. tauto.
+  - intros h Hh Hn. cbn [Selection.choose chosen] in Hn. rewrite in_app_iff in Hn.
+    apply pool_remove_in. split; [apply H3; tauto|]. intros ->. apply Hn. right. left. reflexivity.
+Qed.
+
+Lemma PI_pool0 : PI start pool0.
+Proof.
+  unfold SelectionK.pool0. constructor.
+  - apply NoDup_filter, genes_nodup.
+  - intros g Hg. apply filter_In in Hg. apply genes_in. tauto.
+  - intros g Hg Hn. apply filter_In. split; [apply genes_in; exact Hg|].
+    apply negb_true_iff, nmem_false. exact Hn.
+Qed.
+
+(* ------------------------------------------------------------------ is_top *)
+Lemma is_top_spec st pool g :
+  is_top st pool g = true <-> In g pool /\ forall h, In h pool -> (utility st h <= utility st g)%Z.
+Proof.
+  unfold is_top. rewrite andb_true_iff, nmem_in, forallb_forall.
+  split; intros [H1 H2]; split; auto; intros h Hh; specialize (H2 h Hh); apply Z.leb_le; exact H2.
+Qed.
+
+(* ------------------------------------------------------------------ one batch *)
+Section Batch.
+Variable k : nat.
+Notation popk := (popk marks).
+Notation stepk := (stepk n_genes pairs marks n k).
+Notation runk := (runk n_genes pairs marks n k).
+Notation greedyk := (greedyk n_genes pairs marks n k).
+Notation popg := (popg marks).
+
+(* shape of a successful batch: exactly j genes, appended in order; every popped gene was a member
+   of the list, unchosen, not popped earlier in the batch, and of maximal utility (utility as it
+   stood when the batch started) among the members not yet popped *)
+Lemma popk_shape j : forall st pool batch st2 pool2,
+  popk j st pool batch = POk st2 pool2 ->
+  length batch = j /\ chosen st2 = chosen st ++ batch /\
+  (forall h, In h pool2 <-> In h pool /\ ~ In h batch) /\
+  (forall b1 g b2, batch = b1 ++ g :: b2 ->
+     In g pool /\ ~ In g (chosen st) /\ ~ In g b1 /\
+     forall h, In h pool -> ~ In h b1 -> (utility st h <= utility st g)%Z).
+Proof.
+  induction j as [|j IH]; intros st pool batch st2 pool2 H; cbn [SelectionK.popk] in H.
+  - destruct batch as [|g b]; [|discriminate]. inversion H; subst. split; [reflexivity|].
+    split; [rewrite app_nil_r; reflexivity|]. split; [intros h; cbn; tauto|].
+    intros [|x b1] g b2 E; discriminate.
+  - destruct pool as [|p0 pr] eqn:Ep; [destruct batch; discriminate|]. rewrite <- Ep in *.
+    destruct batch as [|g b]; [discriminate|].
+    destruct (is_top st pool g) eqn:T; [|discriminate].
+    destruct (nmem g (chosen st)) eqn:C; [destruct b; discriminate|].
+    apply nmem_false in C. apply is_top_spec in T. destruct T as [T1 T2].
+    destruct (IH _ _ _ _ _ H) as (L & Ch & Pl & Lg).
+    split; [cbn; lia|]. split; [rewrite Ch; cbn [Selection.choose chosen]; rewrite <- app_assoc; reflexivity|].
+    split.
+    + intros h. rewrite Pl, pool_remove_in. cbn [In]. split; intros A.
+      * destruct A as [[A1 A2] A3]. split; [exact A1|]. intros [B|B]; [apply A2; symmetry; exact B | exact (A3 B)].
+      * destruct A as [A1 A2]. split; [split; [exact A1 | intros B; apply A2; left; symmetry; exact B]|].
+        intros B. apply A2. right. exact B.
+    + intros [|x b1] g' b2 E; cbn in E; inversion E; subst.
+      * split; [exact T1|]. split; [exact C|]. split; [intros []|]. intros h Hh _. apply T2. exact Hh.
+      * destruct (Lg b1 g' b2 eq_refl) as (A1 & A2 & A3 & A4).
+        apply pool_remove_in in A1. destruct A1 as [A1 A1'].
+        cbn [Selection.choose chosen] in A2. rewrite in_app_iff in A2.
+        split; [exact A1|]. split; [tauto|].
+        split; [intros [B|B]; [congruence | contradiction]|].
+        intros h Hh Hn. cbn [In] in Hn.
+        assert (Hne : h <> x) by (intros ->; apply Hn; left; reflexivity).
+        specialize (A4 h). cbn [Selection.choose utility] in A4.
+        apply Nat.eqb_neq in Hne. rewrite Hne in A4.
+        apply Nat.eqb_neq in A1'. rewrite A1' in A4.
+        apply A4; [apply pool_remove_in; split; [exact Hh | apply Nat.eqb_neq; exact Hne] | tauto].
+Qed.
+
+Lemma popk_inv j : forall st pool batch st2 pool2,
+  popk j st pool batch = POk st2 pool2 -> JK st -> PI st pool -> JK st2 /\ PI st2 pool2.
+Proof.
+  induction j as [|j IH]; intros st pool batch st2 pool2 H HJ HP; cbn [SelectionK.popk] in H.
+  - destruct batch as [|g b]; [|discriminate]. inversion H; subst. auto.
+  - destruct pool as [|p0 pr] eqn:Ep; [destruct batch; discriminate|]. rewrite <- Ep in *.
+    destruct batch as [|g b]; [discriminate|].
+    destruct (is_top st pool g) eqn:T; [|discriminate].
+    destruct (nmem g (chosen st)) eqn:C; [destruct b; discriminate|].
+    apply nmem_false in C. apply is_top_spec in T. destruct T as [T1 T2].
+    apply (IH _ _ _ _ _ H).
+    + apply JK_choose; [exact HJ | exact C | apply (PI_genes _ _ HP); exact T1].
+    + apply PI_choose. exact HP.
+Qed.
+
+(* while the loop has not stopped, the first pop of a batch cannot raise and takes a gene of
+   positive utility: only the LATER pops of a batch can go wrong *)
+Lemma top_unfinished st pool g :
+  JK st -> PI st pool -> finished st = false -> is_top st pool g = true ->
+  ~ In g (chosen st) /\ g < n_genes /\ utility st g = max_utility st /\ (0 < utility st g)%Z.
+Proof.
+  intros HJ HP F T. apply is_top_spec in T. destruct T as [T1 T2].
+  destruct (unfinished_top st HJ F) as (g0 & G1 & G2 & G3 & G4).
+  pose proof (T2 g0 (PI_all _ _ HP g0 G1 G2)) as Hge.
+  pose proof (PI_genes _ _ HP g T1) as Hg.
+  pose proof (max_utility_ge n_genes st g Hg) as Hle.
+  split; [|split; [exact Hg | split; lia]].
+  intros Hc. pose proof (JK_taken _ HJ g Hc). lia.
+Qed.
+
+Lemma pool_nonempty_unfinished st pool : JK st -> PI st pool -> finished st = false -> pool <> [].
+Proof.
+  intros HJ HP F. destruct (unfinished_top st HJ F) as (g0 & G1 & G2 & _).
+  pose proof (PI_all _ _ HP g0 G1 G2) as H. intros ->. destruct H.
+Qed.
+
+(* ------------------------------------------------------------------ runs *)
+Lemma stepk_next st pool b st' pool' :
+  stepk st pool b = SNext st' pool' ->
+  finished (update_filled st) = false /\
+  SelectionK.popk marks k (update_filled st) (refresh st pool) b = POk st' pool'.
+Proof.
+  unfold SelectionK.stepk. destruct (finished (update_filled st)); [discriminate|].
+  destruct (SelectionK.popk marks k (update_filled st) (refresh st pool) b); try discriminate.
+  intros H. inversion H; subst. auto.
+Qed.
+
+Lemma stepk_inv st pool b st' pool' :
+  JK st -> PI st pool -> stepk st pool b = SNext st' pool' -> JK st' /\ PI st' pool'.
+Proof.
+  intros HJ HP H. apply stepk_next in H. destruct H as [_ H].
+  apply (popk_inv _ _ _ _ _ _ H); [apply JK_update; exact HJ | apply PI_refresh; exact HP].
+Qed.
+
+Lemma runk_inv trace : forall st pool i st',
+  JK st -> PI st pool -> runk st pool trace i = KDone st' ->
+  JK st' /\ exists st0, JK st0 /\ st' = update_filled st0 /\ finished st' = true.
+Proof.
+  induction trace as [|b t IH]; intros st pool i st' HJ HP H; cbn [SelectionK.runk] in H.
+  - destruct (finished (update_filled st)) eqn:F; [|discriminate]. inversion H; subst st'.
+    split; [apply JK_update; exact HJ|]. exists st. auto.
+  - destruct (stepk st pool b) as [st1 pool1|e|] eqn:S; [|destruct t; discriminate|discriminate].
+    destruct (stepk_inv _ _ _ _ _ HJ HP S) as [HJ1 HP1]. apply (IH _ _ _ _ HJ1 HP1 H).
+Qed.
+
+Theorem batch_no_duplicates prefix batches st :
+  replayk n_genes pairs marks n k prefix batches = KDone st -> NoDup (chosen st) /\ forall g, In g (chosen st) -> g < n_genes.
+Proof.
+  unfold replayk. destruct (list_eqb prefix (chosen start)); [|discriminate]. intros H.
+  destruct (runk_inv _ _ _ _ _ JK_start PI_pool0 H) as [HJ _].
+  split; [apply (JK_nodup _ HJ) | apply (JK_genes _ HJ)].
+Qed.
+
+Theorem batch_coverage prefix batches st :
+  no_gene_both_ways marks ->
+  replayk n_genes pairs marks n k prefix batches = KDone st ->
+  forall p, In p pairs ->
+    Nat.min (2 * n) (covered marks genes p) <= covered marks (chosen st) p.
+Proof.
+  intros Hb. unfold replayk. destruct (list_eqb prefix (chosen start)); [|discriminate]. intros H p Hp.
+  destruct (runk_inv _ _ _ _ _ JK_start PI_pool0 H) as (HJ & st0 & HJ0 & -> & F).
+  pose proof (terminalK_all_filled st0 HJ0 F) as Hall.
+  assert (Hd : fillable (update_filled st0) (p, false)).
+  { apply (JK_filled _ HJ). apply Hall. apply slot_in. exact Hp. }
+  assert (Hu : fillable (update_filled st0) (p, true)).
+  { apply (JK_filled _ HJ). apply Hall. apply slot_in. exact Hp. }
+  pose proof (pairK_coverage _ p HJ Hd Hu) as C.
+  rewrite !covered_split by exact Hb. rewrite (JK_aggr _ HJ), !(JK_counts _ HJ) in C. exact C.
+Qed.
+End Batch.
 End SelKP.
